@@ -247,6 +247,10 @@ def run_case(doc: dict) -> dict:
                 for f in vfaults:
                     if not (ref["rt"].node_specs.get(f["node"]) or {}).get("gen"):
                         f["exc"] = "stopiteration"
+            elif (pi + doc["pair_seed"]) % 4 == 1:
+                # the node raises with an explicit cause (raise X from Y): X is the error of the node, under both runners (seeded C11-13)
+                for f in vfaults:
+                    f["exc"] = "chained"
             pf = (lambda rt: [SyncProc(rt, "obs")]) if doc.get("with_processor") else None
             w = run_world(g, values, mode=mode, cfg=cfg, faults=vfaults, run_kwargs=dict(kw0, error_handling=eh, **kwsel), processors_factory=pf)
             rts.append(w["rt"])
